@@ -6,7 +6,8 @@
    tools/gen_coq.py (gen_counters) translates the source text of those functions into terms
    over the definitions of this file (coq/gen/GenCounters.v); Proofs/CountersP.v proves the
    translated functions equal to the hand-written models of Model/Kernels.v.  Likewise
-   gen_kernel_rounds -> coq/gen/GenRounds.v, Proofs/RoundsP.v (last part of this file).
+   gen_kernel_rounds -> coq/gen/GenRounds.v, Proofs/RoundsP.v, and gen_kernel_rows -> coq/gen/GenRows.v (the
+   row-vectorised single-block compression), Proofs/RowsP.v (last parts of this file).
 
    REGISTER MODEL.  A SIMD register is ONE representation whatever intrinsic reads it: the list
    of its 32-bit lanes, lane 0 (bits 31..0) first: __m128i = 4 lanes, __m256i = 8, __m512i = 16.
@@ -333,3 +334,69 @@ Definition mm_loadu_si128 (buf : list N) (off : nat) : vec := loadu 4 buf off.
 Definition mm256_loadu_si256 (buf : list N) (off : nat) : vec := loadu 8 buf off.
 (* _mm512_loadu_si512 (mem_addr): 64 bytes *)
 Definition mm512_loadu_si512 (buf : list N) (off : nat) : vec := loadu 16 buf off.
+
+(* ================================================================== *)
+(* Intrinsics of the row-vectorised single-block compression           *)
+(* (tools/gen_coq.py gen_kernel_rows -> gen/GenRows.v)                 *)
+(* ================================================================== *)
+(* _MM_SHUFFLE (fp3, fp2, fp1, fp0) of xmmintrin.h (the C files; the Rust files define their own
+   _MM_SHUFFLE!, which the translator expands): (((fp3) << 6) | ((fp2) << 4) | ((fp1) << 2) | ((fp0))) *)
+Definition MM_SHUFFLE (fp3 fp2 fp1 fp0 : Z) : Z :=
+  Z.lor (Z.lor (Z.lor (Z.shiftl fp3 6) (Z.shiftl fp2 4)) (Z.shiftl fp1 2)) fp0.
+
+(* An __m128 (four packed single-precision values) is the same 128-bit register, read as the same four
+   32-bit lanes.  _mm_castsi128_ps (a) / _mm_castps_si128 (a): "Cast vector of type __m128i to type __m128
+   [and back]. This intrinsic is only used for compilation and does not generate any instructions". *)
+Definition mm_castsi128_ps (a : vec) : vec := a.
+Definition mm_castps_si128 (a : vec) : vec := a.
+
+(* SELECT4(src, control): CASE control[1:0] OF 0: src[31:0]  1: src[63:32]  2: src[95:64]  3: src[127:96] *)
+Definition select4 (src : vec) (control : nat) : N := nth control src 0.
+(* _mm_shuffle_epi32 (a, int imm8):
+     dst[31:0] := SELECT4(a[127:0], imm8[1:0]);   dst[63:32] := SELECT4(a[127:0], imm8[3:2])
+     dst[95:64] := SELECT4(a[127:0], imm8[5:4]);  dst[127:96] := SELECT4(a[127:0], imm8[7:6]) *)
+Definition mm_shuffle_epi32 (a : vec) (k : Z) : vec :=
+  let c := imm8 k in
+  [select4 a (sel2 c 0); select4 a (sel2 c 1); select4 a (sel2 c 2); select4 a (sel2 c 3)].
+(* _mm_shuffle_ps (a, b, unsigned int imm8):
+     dst[31:0] := SELECT4(a[127:0], imm8[1:0]);   dst[63:32] := SELECT4(a[127:0], imm8[3:2])
+     dst[95:64] := SELECT4(b[127:0], imm8[5:4]);  dst[127:96] := SELECT4(b[127:0], imm8[7:6]) *)
+Definition mm_shuffle_ps (a b : vec) (k : Z) : vec :=
+  let c := imm8 k in
+  [select4 a (sel2 c 0); select4 a (sel2 c 1); select4 b (sel2 c 2); select4 b (sel2 c 3)].
+(* _mm_blend_epi16 (a, b, const int imm8) (SSE4.1), on the eight 16-bit elements:
+     FOR j := 0 to 7:  i := j*16;  IF imm8[j] THEN dst[i+15:i] := b[i+15:i] ELSE dst[i+15:i] := a[i+15:i] *)
+Definition mm_blend_epi16 (a b : vec) (k : Z) : vec :=
+  let c := imm8 k in
+  of16 (map (fun j => if N.testbit c (N.of_nat j) then nth j (to16 b) 0 else nth j (to16 a) 0) (seq 0 8)).
+(* a `short` argument: its low 16 bits *)
+Definition bits16 (z : Z) : N := Z.to_N (z mod 65536)%Z.
+(* _mm_set_epi16 (short e7, ..., short e0): dst[15:0] := e0 ... dst[127:112] := e7 *)
+Definition mm_set_epi16 (e7 e6 e5 e4 e3 e2 e1 e0 : Z) : vec :=
+  of16 [bits16 e0; bits16 e1; bits16 e2; bits16 e3; bits16 e4; bits16 e5; bits16 e6; bits16 e7].
+(* _mm_set1_epi16 (short a): broadcast a to all eight 16-bit elements *)
+Definition mm_set1_epi16 (a : Z) : vec := of16 (repeat (bits16 a) 8).
+(* _mm_cmpeq_epi16 (a, b): FOR j := 0 to 7: dst[i+15:i] := (a[i+15:i] == b[i+15:i]) ? 0xFFFF : 0 *)
+Definition mm_cmpeq_epi16 (a b : vec) : vec :=
+  of16 (vmap2 (fun x y => if x =? y then 0xFFFF else 0) (to16 a) (to16 b)).
+
+(* ------------------------------------------------------------------ *)
+(* memory: arrays of 32-bit words, unaligned stores, transmute          *)
+(* ------------------------------------------------------------------ *)
+(* the memory image of an array of uint32_t / u32 (x86 is little endian): word k occupies bytes 4k .. 4k+3,
+   least significant byte first; and the array read back from its memory image *)
+Definition mem_u32 (ws : list N) : list N := bytes_of_words ws.
+Definition u32_of_mem (bs : list N) : list N := words_of_bytes bs.
+(* _mm_storeu_si128 (mem_addr, a): MEM[mem_addr+127:mem_addr] := a[127:0]: the 16 bytes of the register replace
+   the 16 bytes at the offset (a byte pointer is a pair (byte list, offset)) *)
+Definition mm_storeu_si128 (buf : list N) (off : nat) (a : vec) : list N :=
+  firstn off buf ++ to8 a ++ skipn (off + 16) buf.
+(* core::mem::transmute::<[__m128i; 4], [u8; 64]>: the bytes of the array as it lies in memory, register k at
+   byte offset 16 k *)
+Definition transmute_m128i_u8 (rs : list vec) : list N := flat_map to8 rs.
+(* _mm256_storeu_si256 (mem_addr, a): MEM[mem_addr+255:mem_addr] := a[255:0] (32 bytes);
+   _mm512_storeu_si512 (mem_addr, a): MEM[mem_addr+511:mem_addr] := a[511:0] (64 bytes) *)
+Definition mm256_storeu_si256 (buf : list N) (off : nat) (a : vec) : list N :=
+  firstn off buf ++ to8 a ++ skipn (off + 32) buf.
+Definition mm512_storeu_si512 (buf : list N) (off : nat) (a : vec) : list N :=
+  firstn off buf ++ to8 a ++ skipn (off + 64) buf.
